@@ -487,6 +487,17 @@ def shrink(line, still_fails):
         ops = split_sx(opsx)[1:]
     except Exception:
         return line
+    # prefer "an UNTAGGED failure persists" (failures tagged with a known finding do not count)
+    try:
+        exe, _ = vlib.build_harness(SPEC['bin'])
+        if exe:
+            def still_fails(l, _exe=exe):
+                v = vlib.split_impl(vlib.run_lines(_exe, [l], timeout=120)[0])[1]
+                return v.startswith('FAIL') and classify(l, {}, None, None, v) is None
+            if not still_fails(line):
+                return line
+    except Exception:
+        pass
     budget = 200
     changed = True
     while changed and budget > 0:
@@ -517,7 +528,7 @@ SPEC = {
             'with the model and the invariants are evaluated on the implementation; non-trivial = at least 2 operations; '
             'distinct = distinct case text',
     'extra_trusted': ['C11: flate2/weezl are oracles whose answers come from the case (same table as C09)'],
-    'partial_note': 'rung 1 of the claim ladder is proved (allocation invariant over every program, freshness, no collision, pruning = unreachable, frames of the allocation operations); the later rungs are tied by correspondence and by the direct verdicts only',
+    'partial_note': 'proved: allocation invariant over every program, freshness, no collision, pruning = unreachable, frames of the allocation operations, delete_object leaves no reference behind (+ frame, termination); NOT proved as universally quantified theorems: Count bookkeeping of delete_pages, page content and effective resources after the content / resource operations -- these are decided on the implementation after every step by the harness and tied to the model by correspondence; three open known findings with class predicates and computed witnesses',
 }
 
 
@@ -530,7 +541,8 @@ MANIFEST = {
                   'set_object, delete_object, remove_object, prune_objects, delete_pages, renumber_objects, compress, decompress, '
                   'change_content_stream, change_page_content, add_page_contents, add_to_page_content, get_or_create_resources, '
                   'add_xobject, add_graphics_state): for EVERY program max_id stays >= every object number, handed-out ids are fresh '
-                  'and never collide, pruning removes exactly the unreachable objects; the model is tied to the implementation by '
+                  'and never collide, pruning removes exactly the unreachable objects, delete_object leaves no reference to the deleted '
+                  'object in the trailer or in anything reachable (after four repairs); the model is tied to the implementation by '
                   'random programs compared after every step, and the invariants (counts, contents, resources, frames) are evaluated '
                   'directly on the implementation after every step.',
     'level_note': 'Trusted: Coq kernel; hand-written model Model/Edit.v tied by correspondence (observable: returned values and the '
